@@ -37,6 +37,12 @@ Theorem C20_work : forall q, pp_raw q <= count_qmark q + 65535.
 Proof. exact pp_work. Qed.
 Print Assumptions C20_work.
 
+(* the executable oracle evaluated on the implementation's results uses linear-time
+   versions of the specification functions: they are equal *)
+Theorem C20_oracle_is_spec : forall q, max_index_fast q = max_index q /\ has_dollar_index_fast q = has_dollar_index q.
+Proof. intros q. split; [exact (max_index_fast_eq q)|exact (has_dollar_index_fast_eq q)]. Qed.
+Print Assumptions C20_oracle_is_spec.
+
 (* non-vacuity and sanity *)
 From Coq Require Import String.
 Local Open Scope string_scope.
